@@ -428,7 +428,7 @@ Proof.
   assert (w <= w * n) as Hwn by nia.
   unfold f_from_uint. destruct (N.leb_spec t w) as [Htw|Htw].
   - split; [lia|]. intros _.
-    rewrite seto_ok by (rewrite lenw_zerosw; assumption). cbn [bind].
+    assert (0 <? n = true) as -> by (apply N.ltb_lt; assumption).
     eexists. split; [reflexivity|]. cbn [wd wl].
     set (d := setw (zerosw n) 0 x).
     assert (lenw d = n) as Hd by (unfold d; rewrite lenw_setw, lenw_zerosw; reflexivity).
@@ -459,6 +459,21 @@ Proof.
       * split; [|auto]. unfold canon_wv. cbn [wd wl]. rewrite HR, Hd.
         split; [assumption|]. split; [lia|].
         destruct (N.min_spec t (w * n)) as [[_ ->]|[_ ->]]; assumption.
+Qed.
+
+(* a fixed type without storage words accepts exactly the integer 0, as the empty vector *)
+Lemma f_from_uint_zero_words w t x :
+  std_width w -> std_width t -> x < 2 ^ t ->
+  f_from_uint w 0 t x = if x =? 0 then Ok (mkwv [] 0) else Err ECap.
+Proof.
+  intros _ _ _. unfold f_from_uint. rewrite N.mul_0_r, N.min_0_r.
+  change (0 <? 0) with false. change (zerosw 0) with (@nil N). change (mapi _ []) with (@nil N).
+  cbv iota.
+  destruct x as [|p].
+  - change (0 =? 0) with true. change (0 <? N.size 0) with false. cbv iota.
+    destruct (t <=? w); reflexivity.
+  - change (N.pos p =? 0) with false. change (0 <? N.size (N.pos p)) with true. cbv iota.
+    destruct (t <=? w); reflexivity.
 Qed.
 
 Lemma slice_int_len_one t x : std_width t -> slice_int_len t 64 [x] = (t + 63) / 64.
